@@ -307,12 +307,12 @@ def build_cases(tier):
     # C. rule-test file
     for desc, doc, vals in substitutions(TEST, alpha):
         files = with_file("tests/r1-test.yml", emit(doc) + "\n")
-        for argv in ([TESTC] if quick else [TESTC, TESTU, TESTS]):
+        for argv in ([TESTC, TESTU] if quick else [TESTC, TESTU, TESTS]):
             cases.append(case("testfile:single", "r1-test.yml %s ; %s" % (desc, " ".join(argv[3:]) or "test"), files, argv, vals, "subst:testfile"))
     # D. snapshot file
     for desc, doc, vals in substitutions(SNAPSHOT, alpha):
         files = with_file("tests/__snapshots__/r1-snapshot.yml", emit(doc) + "\n")
-        for argv in ([TESTC] if quick else [TESTC, TESTU]):
+        for argv in ([TESTC, TESTU] if (not quick or desc.startswith("/id ")) else [TESTC]):
             cases.append(case("snapshot:single", "r1-snapshot.yml %s ; %s" % (desc, " ".join(argv[3:]) or "test"), files, argv, vals, "subst:snapshot"))
     # E. global utility rule file through utilDirs
     for desc, doc, vals in substitutions(UTIL, alpha, max_depth=1 if quick else None):
@@ -334,6 +334,8 @@ def build_cases(tier):
         for combo in itertools.product(range(len(G_EDGES)), repeat=n):
             files = dict(base)
             files.pop("utils/g1.yml")
+            # only the small sources: a well-founded recursive rule may need time exponential in the tree size
+            files.pop("src/b.js")
             parts = []
             for i, e in enumerate(combo):
                 name, build = G_EDGES[e]
